@@ -665,10 +665,26 @@ class Molecule(nx.Graph):
 
     def add_node(self, *args, **kwargs):
         super().add_node(*args, **kwargs)
-        if self.max_node:
-            self.max_node += 1
-        else:
-            self.max_node = 0
+        # The cached highest node key is only maintained by merge_molecule.
+        self.max_node = None
+
+    def add_nodes_from(self, *args, **kwargs):
+        super().add_nodes_from(*args, **kwargs)
+        self.max_node = None
+
+    def add_edge(self, u_of_edge, v_of_edge, **attr):
+        if u_of_edge not in self._node or v_of_edge not in self._node:
+            # networkx creates the missing nodes implicitly.
+            self.max_node = None
+        super().add_edge(u_of_edge, v_of_edge, **attr)
+
+    def add_edges_from(self, *args, **kwargs):
+        super().add_edges_from(*args, **kwargs)
+        self.max_node = None
+
+    def clear(self):
+        super().clear()
+        self.max_node = None
 
     def merge_molecule(self, molecule):
         """
@@ -702,7 +718,7 @@ class Molecule(nx.Graph):
                 .format(self.nrexcl, molecule.nrexcl)
             )
         if self.nodes():
-            if not self.max_node:
+            if self.max_node is None:
                 # hopefully it is a small graph when this is called.
                 self.max_node = max(self)
 
@@ -725,6 +741,9 @@ class Molecule(nx.Graph):
             new_atom['charge_group'] = (new_atom.get('charge_group', 1)
                                         + offset_charge_group)
             self.add_node(idx, **new_atom)
+        # The new nodes are numbered consecutively after the previous highest
+        # key, so the highest key is now known without a scan.
+        self.max_node = offset + len(correspondence)
 
         for name, interactions in molecule.interactions.items():
             for interaction in interactions:
@@ -959,6 +978,7 @@ class Molecule(nx.Graph):
         get deleted.
         """
         super().remove_node(node)
+        self.max_node = None
         self._remove_interactions_with_node(node)
 
     def remove_nodes_from(self, nodes):
@@ -971,6 +991,7 @@ class Molecule(nx.Graph):
         # `nodes` may be a one-shot iterator, and we need it twice.
         nodes = list(nodes)
         super().remove_nodes_from(nodes)
+        self.max_node = None
         for node in nodes:
             self._remove_interactions_with_node(node)
 
